@@ -18,7 +18,7 @@ import (
 // bytes) in the same normal form as the layout tables; see c15_crctable.go.
 
 func c15Crc(r *fw.Run, p *fw.Program) {
-	ru := r.Rule("C15.crc", "pkg/checksum: MakeTable/Write/Sum of the table-driven CRC for 8/16/32 bits (shifts, masks, top-bit test, 8 rounds, MSB-first Sum), the four polynomial tables, IPv4 sum (lane shift, carry fold, complement), bzip2 bit-reversing reader; decode.UintAssertBytes decodes candidates of length 1/2/4/8 big-endian for every Endian (all callers pass hash.Sum bytes, C15.sum)", 80)
+	ru := r.Rule("C15.crc", "pkg/checksum: MakeTable/Write/Sum of the table-driven CRC for 8/16/32 bits (shifts, masks, top-bit test, 8 rounds, MSB-first Sum), the four polynomial tables, IPv4 sum (lane shift, carry fold, complement), bzip2 bit-reversing reader; decode.UintAssertBytes decodes candidates of length 1/2/4/8 big-endian for every Endian (all callers pass hash.Sum bytes, C15.sum)", 55)
 	w := newC15World(p)
 	w.branches = true
 	c15CompareTable(ru, nil, p, w, c15CrcTable)
